@@ -533,7 +533,8 @@ Theorem from_address_accept_iff_base58check_refuted_lemma :
                validate_address addr = false /\
                ~ is_p2pkh_address (bytes_of_string addr).
 Proof.
-  exists wrong_checksum_witness. destruct witness_accepted as [H1 H2]. repeat split; eauto.
+  exists wrong_checksum_witness. destruct witness_accepted as [H1 H2].
+  split; [eexists; exact H1|]. split; [eexists; exact H2|]. split.
   - vm_compute. reflexivity.
   - apply witness_not_base58check.
 Qed.
@@ -544,9 +545,7 @@ Theorem from_address_accept_partial_lemma addr :
   ((exists s, p2pkh_from_address addr = Ok s) <-> is_base58_25 (bytes_of_string addr)) /\
   (is_p2pkh_address (bytes_of_string addr) -> exists a, new_address_from_string addr = Ok a).
 Proof.
-  repeat split.
-  - apply from_string_accept_iff.
-  - intros H. apply from_string_accept_iff, p2pkh_from_address_accept_iff, H.
-  - intros H. apply p2pkh_from_address_accept_iff, from_string_accept_iff, H.
+  split; [apply from_string_accept_iff|]. split.
+  - rewrite p2pkh_from_address_accept_iff. apply from_string_accept_iff.
   - intros H. apply from_string_accept_iff, p2pkh_address_is_base58_25, H.
 Qed.
